@@ -1,4 +1,4 @@
-from lib import flow
+from lib import flow, vlib
 
 BIG = 3600000  # timer interval (ms) that never expires during a plan
 
@@ -21,6 +21,8 @@ C = dict(
         dict(module="Packer", cfg="Packer_MCq.cfg", tiers=["quick"], workers=8),
         dict(module="Packer", cfg="Packer_MC.cfg", tiers=["thorough"], workers=8),
         dict(module="Packer", cfg="Packer_MC2.cfg", tiers=["thorough"], workers=8),
+        # "bytes removed are measured after the callback" is indistinguishable from the design as long as callbacks are read-only
+        dict(module="Packer", cfg="Packer_RemeasureSame.cfg", tiers=["thorough"], workers=8),
     ],
     # the constants of each plan cfg and the driver parameters describe the same thresholds:
     # 1 model unit = 512 bytes (small pack); MaxSize = 2*maxMsgKB, MemMax = 2*memKB
@@ -34,6 +36,11 @@ C = dict(
         src("all4", "Packer_PlanAll4.cfg", P(3, 1, 2, 1), ["thorough"], cap={"thorough": 12000}),
         src("one4", "Packer_PlanOne4.cfg", P(1, 1, 1024, BIG), ["quick", "thorough"], cap={"quick": 800, "thorough": 15000}),
         src("def4", "Packer_PlanDef4.cfg", P(0, 0, 0, 0), ["quick", "thorough"], cap={"quick": 600}),
+        # callbacks that edit the packs they are handed in place (grow / shrink / same chosen at every flush)
+        src("mut3", "Packer_PlanMut3.cfg", P(2, 1, 2, BIG), ["quick", "thorough"], cap={"quick": 1500}),
+        src("mut4", "Packer_PlanMut4.cfg", P(2, 1, 2, BIG), ["thorough"], cap={"thorough": 12000}),
+        dict(name="simmut", module="Packer", cfg="Packer_PlanSimMut.cfg", simulate={"quick": 20, "thorough": 400},
+             depth=14, params=P(3, 1, 3, 1), cap={"quick": 300, "thorough": 6000}),
         dict(name="sim", module="Packer", cfg="Packer_PlanSim.cfg", simulate={"quick": 20, "thorough": 400},
              depth=14, params=P(3, 1, 3, 1), cap={"quick": 300, "thorough": 6000}),
         dict(name="sim2", module="Packer", cfg="Packer_PlanSim2.cfg", simulate={"quick": 20, "thorough": 400},
@@ -44,7 +51,8 @@ C = dict(
     death="violation",
     nontrivial=lambda t: any(e.get("op") == "recv" and any(len(c) > 0 for c in e.get("calls", [])) for e in t["events"]),
     rule="plans = complete histories of Packer.tla (exhaustive per threshold configuration up to the cfg's depth; TLC -simulate "
-         "for 3 batchers at depth 14); the driver appends the shutdown flush of every live batcher; a trace is non-trivial if at "
+         "for 3 batchers at depth 14; sources mut3 / mut4 / simmut and the directed plans d-mut-* let the callback grow / shrink the "
+         "packs it is handed in place at every flush); the driver appends the shutdown flush of every live batcher; a trace is non-trivial if at "
          "least one Receive flushed a non-empty buffer; distinct = distinct event sequences",
     assumptions=[
         "one goroutine per Packer (as in cdc_impl.go startReplicateDMLMsg); the MemoryProtector is reset between plans through "
@@ -52,6 +60,9 @@ C = dict(
         "size classes are concrete messages with measured msg.Size() 0 / 512 / 1536 bytes; thresholds are multiples of 1 KB",
         "the timer threshold is exercised with TimerInterval=1 ms and a 3 ms pause before 'aged' steps; the contract never "
         "depends on whether a flush happened, only on what the callback saw when it did",
+        "a callback may edit the packs it is handed in place (the production callback ChannelWriter.HandleReplicateMessage stamps "
+        "ReplicateInfo and rewrites names); the driver's grow / shrink callbacks do the same kind of edit, the measured byte delta is "
+        "logged; only the sign of the delta is modelled (one unit per non-empty pack)",
         "the contract does not require the counter to equal the byte sum while packs are buffered (only zero when all "
         "batchers are empty); GlobalIsSum is checked on the design model only",
         "TLC exhaustiveness holds for the constants in the cfg files only",
@@ -59,5 +70,15 @@ C = dict(
 )
 
 
+def must_violate(cfg, inv, what):
+    """a defect class the checked code does not have: its model variant must leave the contract (non-vacuity of the switch)"""
+    r = vlib.run_tlc("Packer", cfg, workers=4, timeout=600, tag="c14-neg")
+    if inv not in r.violated:
+        raise vlib.Inconclusive("%s no longer shows the contract violation of '%s':\n%s" % (cfg, what, r.out[-2000:]))
+    vlib.log("[c14] %s: %s violated by the model variant '%s', as expected (%d states)" % (cfg, inv, what, r.distinct))
+
+
 def run(tier, replay=None):
+    if not replay:
+        must_violate("Packer_Remeasure.cfg", "ZeroWhenEmpty", "bytes removed from the global counter are measured after the callback has run")
     return flow.standard_flow(C, tier, replay)
